@@ -302,6 +302,7 @@ def run(ctx, tier):
     ctx.rule("S3", "every offset behind a buffer edit position is shifted or reassigned on the path")
     ctx.rule("S4", "members are owning value types; copy/move not user-written")
     ctx.rule("S5", "buffer/components private; friends frozen")
+    ctx.rule("S8", "the pathname setter takes an existing \"/.\" guard out of the buffer on every path before the new path is written")
     ctx.rule("S7", "the \"/.\" guard is inserted into the buffer only where there is no authority (host null), as the URL serializer "
                    "prescribes; with an empty host the bytes would belong to no component")
     ctx.rule("S6", "byte accounting: on every path of an editor, each written offset ends where the edits moved its boundary")
@@ -312,6 +313,7 @@ def run(ctx, tier):
         check(ctx, fxs[name])
         from rules import helpers_spec as HS
         HS.check_dash_dot_guard(ctx, fxs[name], "S7")
+        HS.check_dash_dot_removed(ctx, fxs[name], "S8")
 
 
 def check_offsets_only(ctx, fx):
